@@ -49,7 +49,7 @@ func TestC10(t *testing.T) {
 		if e.cfg.Thorough() {
 			depths = append(depths, 1000000)
 		}
-		e.feed(feedOpts{shortlexQ: 3, shortlexT: 5, sweepQ: 100, sweepT: 3000, sweepMaxLen: 64, nestQ: 60, nestT: 600, nestDepths: depths,
+		e.feed(feedOpts{shortlexQ: 3, shortlexT: 5, sweepQ: 100, sweepT: 3000, sweepMaxLen: 64, nestQ: 60, nestT: 600, indentQ: 16, indentT: 300, nestDepths: depths,
 			mutQ: 30000, mutT: 1000000, nextByte: false, alignment: true, noDepthSites: true}, evalBytes)
 		// 1b. number literals on the rarest conversion paths (exact ties incl. 2^-1075, the
 		// overflow threshold, 800-digit mantissas): a panic deep in the float fallback is a
@@ -79,6 +79,22 @@ func TestC10(t *testing.T) {
 					}
 				}
 				if r.Failed() {
+					break
+				}
+			}
+		}
+		// 1c. the one exported function whose argument is not a byte string
+		if e.enumStage("token-types", "TokenType(v).String() and fmt formatting for all 256 values of the exported uint8 type", true) {
+			for v := 0; v < 256; v++ {
+				if !e.cfg.Mine(v) {
+					continue
+				}
+				c := &core.Case{Prop: "C10", Kind: "tokentype", Ints: []int64{int64(v)}}
+				r.BeginCase(c)
+				r.Eval(core.HashInts(0x7074, int64(v)), v > 11)
+				r.Label("tokentype")
+				if err := c10TokenType(uint8(v)); err != nil {
+					r.Fail(c, err)
 					break
 				}
 			}
